@@ -34,9 +34,13 @@ def generate_test_code(spec: model.LSPModel, test_path: pathlib.Path) -> str:
     start_index = -1
     end_index = -1
     for i, line in enumerate(code):
-        if line.endswith(start_marker):
+        if line.rstrip().endswith(start_marker):
             start_index = i + 1
-        elif line.endswith(end_marker):
+        elif line.rstrip().endswith(end_marker):
             end_index = i
+    if start_index == -1 or end_index < start_index:
+        # Without both markers (in this order) there is no generated region:
+        # splicing at -1 would add the block again on every run.
+        return
     code[start_index:end_index] = lines
     test_path.write_text("\n".join(code), encoding="utf-8")
